@@ -78,7 +78,7 @@ def check_corpus(rep, tier, st, candidates):
                 if m: shape = (m.group(1), re.sub(r'[A-Za-z_.]\w*', 'v', re.sub(r'\d+', '1', m.group(2))))
                 why = ''
                 if shape and shape in candidates: why = '; asm() passes this pair through for configuration %s' % (candidates[shape],)
-                rep.violation('noasm:%s#%s' % (rid, h), '%s: the emitted code is rejected by a 6502 assembler: %s%s' % (rid, msg, why), dict(kind='tv-noasm', source=text, args=args, msg=msg, code=code))
+                rep.violation('noasm:%s#%s' % (rid, h), '%s: the emitted code is rejected by a 6502 assembler: %s%s' % (rid, msg, why), dict(kind='tv-noasm', source=text, args=args, msg=msg, code=code), sig=['noasm: ' + re.sub(r'\d+', 'N', msg)])
     if len(st['samples']) < 4:
         st['samples'].append(dict(part='corpus', programs=st['corpus_programs'], instructions=st['corpus_instructions'], verdict='every instruction has a legal addressing mode, every label is defined exactly once, every relative branch is in range'))
 
